@@ -72,7 +72,7 @@ func checkC19(e *RunEnv) *CheckResult {
 	corpusDir := filepath.Join(e.B.Scratch, "corpus19")
 	runH := func() []Violation {
 		vs, sum := runHarness(e, "h19", []string{corpusDir}, func(shard int, journal, stderr string) *Violation {
-			return &Violation{Oracle: "no-fatal", Command: "decode", Detail: "harness process died (runtime fatal / out of memory / killed): " + stderr}
+			return &Violation{Oracle: "no-fatal", Command: "decode", Detail: "harness process died (runtime fatal / out of memory / killed) while handling " + strings.TrimSpace(journal) + ": " + stderr}
 		})
 		hsum = sum
 		return vs
@@ -179,7 +179,7 @@ func checkC19(e *RunEnv) *CheckResult {
 	var rerun []Violation
 	var rerunDone bool
 	res.Rejudge = func(v *Violation) []Violation {
-		if v.Case != nil {
+		if v.Case != nil || v.Oracle == "no-fatal" {
 			// the harness is deterministic: one complete second run confirms every in-module violation
 			if !rerunDone {
 				rerun, rerunDone = runH(), true
